@@ -57,7 +57,13 @@ def params(tier):
 def run(tier):
     res = Result(PID)
     st = explore.explore(C31("line"), params(tier), 2)
+    ix = None
+    if tier != "quick":
+        ix = explore.extra(st, explore.hybrid(C31("instr")), [dict(p, bound=2.015, time_horizon=0.5) for p in params(tier)[:4]], 2.015, 900,
+                           "first 4 parameter sets at instruction granularity (at most one deviation inside a line)")
     fill(res, st, 2, "line", "; capacity 2 tracked sources, third source deferred or not, fifo/lifo, one-shot/periodic")
+    if ix:
+        res.coverage["instruction_extra"] = ix
     res.assumptions = ["capacity reduced through a subclass attribute (QUEUE_SIZE = 2), the documented extension point"]
     return res
 
